@@ -541,6 +541,9 @@ class GenericPlainRegistry(Generic[QuantityT, UnitT], metaclass=RegistryMeta):
                 logger.warning(f"Redefining '{key}' ({type(value)})")
 
         target_dict[key] = value
+        # An earlier lookup may have cached a prefixed or pluralised reading
+        # of this spelling ('kfoo' as kilo-foo), which the new entry shadows.
+        self._cache.parse_unit.pop(key, None)
         if casei_target_dict is not None:
             casei_target_dict[key.lower()].add(key)
 
